@@ -234,9 +234,8 @@ EndFails(i) == IF i > Len(ms) THEN Ok ELSE OnlineValueFail(ms[i], 0) \o EndFails
 Filt(c, fs) == SelectSeq(fs, LAMBDA f : f.clause \notin SeqToSet(c.skip))
 
 \* known findings reproduced exactly by the failing observation
-\* measured on the unchanged tree (1 500 single-operator runs under random chunkings): once/historically[a,b] with
-\* a = b (a pure delay, which is what pastify() inserts) never fail; a < b and since[a,b] do
-HasTimed(p) == \E q \in SubF(p) : (q.op \in {"onceT", "histT"} /\ q.a < q.b) \/ q.op \in {"sinceT", "precT"}
+\* (F-05a, pending intervals of once/historically[a,b] lost between updates, and F-05b, constants re-emitted by every
+\*  update, were repaired in the library: the online clauses have no excuse any more)
 Explained(c, fl) ==
   IF fl = Ok THEN {} ELSE
   LET f == fl[1] IN
@@ -246,16 +245,13 @@ Explained(c, fl) ==
   (IF f.clause \in {"evaluate.start", "evaluate.value"}
       /\ \E i \in 1..Len(ms) : ms[i].phase = "offline" /\ HasOp(ms[i].phi, Timed) /\ HasData(ms[i]) /\ D0(ms[i]) > 0
    THEN {"F-04b"} ELSE {}) \cup
-  \* F-05b: dense-time online, a binary node both of whose operands are constant-valued, second or later update():
-  \* constants are re-emitted as [[0,c],[inf,c]] by every update and the operator's buffers become non-monotone
-  (IF f.clause \in {"update.exc", "update.value", "update.monotone", "rel.same_fn"}
-      /\ \E i \in 1..Len(ms) : ms[i].inst.op # "null" /\ ms[i].mu >= 2
-            /\ \E q \in SubF(ms[i].inst) : q.op \in Bin2 /\ VarsOf(q) = {}
-   THEN {"F-05b"} ELSE {}) \cup
-  \* F-05a: dense-time online monitor, a timed operator in the installed AST and more than one update()
-  (IF f.clause \in {"update.value", "update.exc", "update.monotone", "rel.same_fn"}
-      /\ \E i \in 1..Len(ms) : ms[i].inst.op # "null" /\ HasTimed(ms[i].inst) /\ ms[i].mu >= 2
-   THEN {"F-05a"} ELSE {})
+  \* F-05c: the online counterpart: once/historically[a,b] with a > 0 (also inside since[a,b] and pastified
+  \* eventually/always) produce their initial -inf/+inf segment only if the first time-stamp is 0; for a signal
+  \* that begins later the output begins at t0 + a, and an operator on top sees no value before (the suite pins this)
+  (IF f.clause = "update.value"
+      /\ \E i \in 1..Len(ms) : ms[i].phase = "online" /\ ms[i].inst.op # "null" /\ HasData(ms[i]) /\ D0(ms[i]) > 0
+            /\ \E q \in SubF(ms[i].inst) : q.op \in Timed /\ q.a > 0
+   THEN {"F-05c"} ELSE {})
 
 Verdict(c, fl) ==
   [tid |-> c.tid, ok |-> fl = Ok,
